@@ -1782,6 +1782,7 @@ func RunFrame(frame *py.Frame) (res py.Object, err error) {
 			debugf("* %4d:", frame.Lasti)
 		}
 		opcode = OpCode(opcodes[frame.Lasti])
+		verifPc := frame.Lasti
 		frame.Lasti++
 		if opcode.HAS_ARG() {
 			arg = int32(opcodes[frame.Lasti])
@@ -1800,6 +1801,7 @@ func RunFrame(frame *py.Frame) (res py.Object, err error) {
 			}
 		}
 		vm.extended = false
+		verifInstr(frame, opcode, arg, verifPc)
 		err = jumpTable[opcode](&vm, arg)
 		if err != nil {
 			// FIXME shouldn't be doing this - just use err?
